@@ -343,6 +343,17 @@ func kv(out string) map[string]string {
 	return m
 }
 
+// readable renders "<hex>,<hex|ok>" output fields with the text they encode.
+func readable(v string) string {
+	parts := strings.Split(v, ",")
+	for i, p := range parts {
+		if b, ok := unhx(p); ok && p != "ok" {
+			parts[i] = fmt.Sprintf("%q", b)
+		}
+	}
+	return strings.Join(parts, ",")
+}
+
 func check(c core.Case, out []string) *core.Failure {
 	for i := 1; i < len(c.Lines); i++ {
 		if f := checkOp(core.Toks(c.Lines[i]), out[i]); f != nil {
@@ -367,7 +378,7 @@ func checkOp(t []string, out string) *core.Failure {
 	allEq := func(key string, want string, names ...string) *core.Failure {
 		for _, n := range names {
 			if m[n] != want {
-				return fail(key, "instantiation %s= returned %s, standard library gives %s", n, m[n], want)
+				return fail(key, "instantiation %s= returned %s, standard library gives %s", n, readable(m[n]), readable(want))
 			}
 		}
 		return nil
